@@ -20,6 +20,7 @@ import SkNet.Lemmas.Closure
 import SkNet.Lemmas.Complete
 import SkNet.Lemmas.BreakInv
 import SkNet.Lemmas.BreakAcyclic
+import SkNet.Lemmas.BreakDirGlobal
 
 namespace SkNet.C12
 open SkNet SkNet.Connectivity SkNet.Cycles
@@ -790,6 +791,149 @@ theorem breakCycles_undirected (fuel : Nat) (ext : BreakExt) (m : Mat) (root : O
                 · have := (List.mem_filter.mp h').2
                   exact hg0.symm y x (by simpa using this)
               exact no_cycle_of_startDone (hdone _ hstart) hC h3 List.mem_cons_self (hg.conn _ _ hreach0)
+
+/-- what `get_distances(adjacency, source=root)` returned are hop distances from the roots — the statement of
+    property C10 (`-1` exactly for the nodes no root reaches, `0` only at roots, a predecessor one step closer) -/
+structure IsHopDist (a0 : Rows) (n : Nat) (root : List Nat) (d : List Int) : Prop where
+  reach : ∀ v, v < n → (0 ≤ d.getD v (-1) ↔ ∃ r ∈ root, Reach a0.row r v)
+  zero : ∀ v, v < n → d.getD v (-1) = 0 → v ∈ root
+  pred : ∀ v, v < n → 0 < d.getD v (-1) → ∃ x, v ∈ a0.row x ∧ d.getD x (-1) = d.getD v (-1) - 1
+
+theorem checkRoot_ok {m : Mat} {root : List Nat} (h : checkRoot m root = .ok ()) : ∀ r ∈ root, r < m.nRow := by
+  unfold checkRoot at h
+  split at h
+  · cases h
+  · rename_i hall
+    intro r hr
+    have : (root.all fun x => decide (x < m.nRow)) = true := by simpa using hall
+    simpa using List.all_eq_true.mp this r hr
+
+/-- ★ `breakCycles_acyclic` and `breakCycles_reach`, directed graph (flag `True`, or inferred from an asymmetric
+    matrix): with scipy's contract for the strong components of the loop-free graph, exact hop distances from
+    `get_distances` (property C10) and a set order that enumerates the members of a set, whatever the fuel is the
+    matrix returned by `break_cycles` has no directed cycle, and every node that some root reaches in the input is
+    still reached by some root.
+    (Inside a component every removal `cur → nb` happens while the stacked path from a sub-root through `nb` to
+    `cur` is stored — `Lemmas/BreakDir.lean`; the sub-roots, closest to the roots, are entered from outside the
+    component by an edge that is never removed — `Lemmas/BreakDirGlobal.lean`, `stage`.) -/
+theorem breakCycles_directed (fuel : Nat) (ext : BreakExt) (m : Mat) (rootl : List Nat)
+    (directed : Option Bool) (a : Rows)
+    (hc : m.Canon) (hsq : m.nRow = m.nCol)
+    (hd : resolveDirected m directed = .ok true)
+    (hlab : IsLabelling m.nRow (noLoopRows m).row true (ext.labelsNoLoop true))
+    (hset1 : ∀ l x, x ∈ ext.setOrder l → x ∈ l) (hset2 : ∀ l x, x ∈ l → x ∈ ext.setOrder l)
+    (hdist : ∀ d, distancesFrom m (noLoopRows m) rootl = .ok (some d) → IsHopDist (noLoopRows m) m.nRow rootl d)
+    (h : breakCyclesWith fuel ext m (some rootl) directed = .ok (.rows a)) :
+    ¬ HasCycle m.nRow a.row ∧
+    ∀ v, (∃ r ∈ rootl, Reach m.adj r v) → ∃ r ∈ rootl, Reach a.row r v := by
+  have hwf := Canon.wf hc hsq
+  unfold breakCyclesWith at h
+  split at h
+  · cases h
+  · cases h
+  · simp only at h
+    split at h
+    · cases h
+    · rename_i hroot
+      simp only [hd] at h
+      unfold breakDirected at h
+      simp only at h
+      split at h
+      · cases h
+      · cases h
+      · rename_i d hdd
+        split at h
+        · cases h
+        · rename_i aEnd hrun
+          have hae : aEnd = a := BreakOut.rows.inj (Except.ok.inj h)
+          subst hae
+          have hD := hdist d hdd
+          -- the data of the run
+          let c : DirCtx := ⟨m.nRow, noLoopRows m, ext.labelsNoLoop true, rootl, d, ext.setOrder⟩
+          have hok : c.OK := by
+            refine ⟨?_, ?_, hlab, hset1, hset2, hD.reach, hD.zero, hD.pred⟩
+            · intro u v hv
+              obtain ⟨hu, hmem, _⟩ := (mem_noLoopRows m u v).mp hv
+              exact ⟨hu, hwf u hu v hmem⟩
+            · intro u hu
+              exact ((mem_noLoopRows m u u).mp hu).2.2 rfl
+          have hnodup : ((npUnique (ext.labelsNoLoop true)).filter
+              fun v => (ext.labelsNoLoop true).count v > 1).Nodup :=
+            (List.filter_sublist).nodup (npUnique_nodup _)
+          obtain ⟨e1, e2, e3⟩ := DirCtx.breakLabels_spec (c := c) hok fuel _ hnodup (noLoopRows m) aEnd
+            (Rows.Sub.refl _) (fun _ _ x y hy _ _ => hy) (fun x y hy _ => hy) (fun v hv => hv) hrun
+          refine ⟨?_, ?_⟩
+          · -- no cycle
+            intro hcyc
+            have hwfE : ∀ u, u < m.nRow → ∀ v ∈ aEnd.row u, v < m.nRow :=
+              fun u _ v hv => (hok.wf u v (e1.2 u v hv)).2
+            obtain ⟨C, hC⟩ := exists_simpleCycle_of_hasCycle hwfE hcyc
+            obtain ⟨hnd, hlt, hcl, _⟩ := id hC
+            have hreachC := closedChain_reach hcl
+            have hreach0 : ∀ u ∈ C, ∀ v ∈ C, Reach (noLoopRows m).row u v :=
+              fun u hu v hv => Reach.mono e1.2 (hreachC u hu v hv)
+            match C, hC, hnd, hlt, hcl, hreach0 with
+            | [], _, _, _, hcl, _ => exact absurd hcl (by simp [IsClosedChain])
+            | [v], _, _, _, hcl, _ =>
+              have : isChain aEnd.row ([v] ++ [v]) = true := hcl
+              have hv : v ∈ aEnd.row v := by simpa [isChain] using this
+              exact hok.noloop v (e1.2 v v hv)
+            | c0 :: c1 :: t, hC, hnd, hlt, _, hreach0 =>
+              have hne : c0 ≠ c1 := by intro he; subst he; simp at hnd
+              have l0 := hlt c0 (by simp)
+              have l1 := hlt c1 (by simp)
+              have heq : c.lab c0 = c.lab c1 :=
+                (DirCtx.sameLabel_iff hok l0 l1).mpr ⟨hreach0 c0 (by simp) c1 (by simp), hreach0 c1 (by simp) c0 (by simp)⟩
+              have hl0 : c0 < (ext.labelsNoLoop true).length := hlab.1 ▸ l0
+              have hl1 : c1 < (ext.labelsNoLoop true).length := hlab.1 ▸ l1
+              have hL : c.lab c0 ∈ ext.labelsNoLoop true := by
+                simp [DirCtx.lab, c, List.getD_eq_getElem?_getD, hl0]
+              have hcount : 1 < (ext.labelsNoLoop true).count (c.lab c0) := by
+                rw [← argwhereEq_length]
+                have h1 : c0 ∈ argwhereEq (ext.labelsNoLoop true) (c.lab c0) := mem_argwhereEq.mpr ⟨hl0, rfl⟩
+                have h2 : c1 ∈ argwhereEq (ext.labelsNoLoop true) (c.lab c0) := mem_argwhereEq.mpr ⟨hl1, heq.symm⟩
+                have := (nodup_sub_length (u := [c0, c1]) (by simp [hne]) (by
+                  intro x hx
+                  simp only [List.mem_cons, List.not_mem_nil, or_false] at hx
+                  rcases hx with rfl | rfl
+                  · exact h1
+                  · exact h2)).1
+                have h3 : ([c0, c1] : List Nat).length = 2 := rfl
+                omega
+              have hLin : c.lab c0 ∈ (npUnique (ext.labelsNoLoop true)).filter
+                  fun v => (ext.labelsNoLoop true).count v > 1 :=
+                List.mem_filter.mpr ⟨mem_npUnique.mpr hL, by simpa using hcount⟩
+              exact e3 _ hLin _ hC ⟨c0, by simp, rfl⟩
+          · -- reachability from the roots
+            intro v ⟨r, hr, hrv⟩
+            have hrn := checkRoot_ok hroot r hr
+            exact e2 v ⟨r, hr, (reach_noLoop_iff m hwf hrn v).mp hrv⟩
+
+/-- the directed 3-cycle 0 → 1 → 2 → 0 from root 0: the model removes the closing edge 2 → 0, and the hypotheses of
+    `breakCycles_directed` are met (one strong component, distances 0, 1, 2) -/
+def threeCycle : Mat := ⟨3, 3, fun i => [(i + 1) % 3], fun i j => if j = (i + 1) % 3 then 1 else 0⟩
+
+example : breakCycles { nCC := fun _ => 1, labelsNoLoop := fun _ => [0, 0, 0], setOrder := fun l => sortNat l.eraseDups }
+    threeCycle (some [0]) (some true) = .ok (.rows [[1], [2], []]) := by rfl
+example : IsLabelling 3 (noLoopRows threeCycle).row true [0, 0, 0] :=
+  contract_line_certifies 3 _ (by decide) true _ (by decide)
+example : distancesFrom threeCycle (noLoopRows threeCycle) [0] = .ok (some [0, 1, 2]) := by rfl
+example : IsHopDist (noLoopRows threeCycle) 3 [0] [0, 1, 2] := by
+  have e01 : (1 : Nat) ∈ (noLoopRows threeCycle).row 0 := by decide
+  have e12 : (2 : Nat) ∈ (noLoopRows threeCycle).row 1 := by decide
+  refine ⟨fun v hv => ?_, fun v hv h0 => ?_, fun v hv hp => ?_⟩
+  · match v, hv with
+    | 0, _ => exact ⟨fun _ => ⟨0, by simp, Reach.refl _⟩, fun _ => by decide⟩
+    | 1, _ => exact ⟨fun _ => ⟨0, by simp, Reach.edge e01⟩, fun _ => by decide⟩
+    | 2, _ => exact ⟨fun _ => ⟨0, by simp, (Reach.edge e01).trans (Reach.edge e12)⟩, fun _ => by decide⟩
+  · match v, hv, h0 with
+    | 0, _, _ => simp
+    | 1, _, h0 => exact absurd h0 (by decide)
+    | 2, _, h0 => exact absurd h0 (by decide)
+  · match v, hv, hp with
+    | 0, _, hp => exact absurd hp (by decide)
+    | 1, _, _ => exact ⟨0, e01, by decide⟩
+    | 2, _, _ => exact ⟨1, e12, by decide⟩
 
 /-- a triangle next to the root's component (the witness of finding F-C12-components): with the repaired code the
     model breaks it too -/
